@@ -360,11 +360,12 @@ def spec_c15(tier, seed):
         conds=[
             Cond('c15_keepalive', 'c_echo', parts=[{'role': r, 'dlen': d} for r in ('client', 'server') for d in (0, 2, 3)], timeout=300),
             Cond('c15_keepalive', 'c_periodic', parts=[{'p_us': p} for p in ps], timeout=300),
+            Cond('c15_keepalive', 'c_periodic_with_acks', parts=[{'p_us': p} for p in ps[:2 if q else 5]], timeout=300 if q else 900),
             Cond('c15_keepalive', 'c_timeout', parts=[{'l_us': l, 'ngaps': g} for l in ls for g in gaps], timeout=600 if q else 1800),
         ],
         explanation='real endpoints on the virtual-time loop. Echo: symbolic respond flag, 63-bit position, data content, both '
                     'roles. Periodic emission: symbolic elapsed time T <= 9.5 P, every KEEPALIVE time-stamped by the virtual clock '
-                    'must be at k*P with the respond flag, none other, none after close. Time-out: symbolic acknowledgement gaps '
+                    'must be at k*P with the respond flag, none other, none after close; the same with two server KEEPALIVEs arriving at symbolic instants within 3.5 P (c_periodic_with_acks). Time-out: symbolic acknowledgement gaps '
                     'in [0, 2.5 L] and symbolic silence in [0, 3.5 L]; no false time-out while gaps <= L, detection by 2 L.',
         bounds=['keep-alive periods P in %s us, lifetimes L in %s us (configuration values; they enter asyncio.sleep as floats)' % (ps, ls),
                 'T in [0, 9.5 P]; up to %d acknowledgements with gaps in [0, 2.5 L]; silence in [0, 3.5 L] - all symbolic integers (us)' % max(gaps),
